@@ -250,8 +250,26 @@ use roughenough::stats::{AggregatedStats, ClientStats, PerClientStats, Reporter,
 use std::net::{IpAddr, Ipv4Addr};
 use std::sync::Arc;
 
+// address numbers: < 1000 plain IPv4 (0.0.0.a); 1000..1999 the IPv4-mapped IPv6 form of
+// 0.0.0.(a-1000) (a different IpAddr, hence a different client); >= 2000 2001:db8::(a-2000)
 fn ip(a: u32) -> IpAddr {
-    IpAddr::from(Ipv4Addr::from(a))
+    if a < 1000 {
+        IpAddr::from(Ipv4Addr::from(a))
+    } else if a < 2000 {
+        IpAddr::from(Ipv4Addr::from(a - 1000).to_ipv6_mapped())
+    } else {
+        IpAddr::from(std::net::Ipv6Addr::new(0x2001, 0xdb8, 0, 0, 0, 0, 0, (a - 2000) as u16))
+    }
+}
+
+fn ip_num(ip: &IpAddr) -> u32 {
+    match ip {
+        IpAddr::V4(a) => u32::from(*a),
+        IpAddr::V6(a) => match a.to_ipv4_mapped() {
+            Some(v4) => 1000 + u32::from(v4),
+            None => 2000 + a.segments()[7] as u32,
+        },
+    }
 }
 
 fn apply_op(s: &mut dyn ServerStats, op: &str) {
@@ -292,17 +310,11 @@ fn totals(s: &dyn ServerStats) -> String {
 }
 
 fn render_clients(mut v: Vec<ClientStats>) -> String {
-    v.sort_by_key(|c| match c.ip_addr {
-        IpAddr::V4(a) => u32::from(a),
-        _ => 0,
-    });
+    v.sort_by_key(|c| ip_num(&c.ip_addr));
     let items: Vec<String> = v
         .iter()
         .map(|c| {
-            let a = match c.ip_addr {
-                IpAddr::V4(a) => u32::from(a),
-                _ => 0,
-            };
+            let a = ip_num(&c.ip_addr);
             format!(
                 "{}:{}/{}/{}/{}/{}/{}/{}/{}/{}",
                 a, c.rfc_requests, c.classic_requests, c.invalid_requests, c.health_checks,
